@@ -65,6 +65,9 @@ pub(crate) struct SessionConnectionActorX<S: ZmtpStdStream> {
   _connection_permit: Option<OwnedSemaphorePermit>,
   incoming_pipe_sender: Option<PipeMessageSender>,
   is_currently_congested: bool,
+  /// Data messages the engine decoded from the same read as the peer's last handshake bytes;
+  /// handed to the ingress buffer when the operational loop starts.
+  early_ingress: std::collections::VecDeque<FrameBatch>,
 
   #[cfg(target_os = "linux")]
   cork_info: Option<crate::sessionx::cork::TcpCorkInfoX>,
@@ -150,6 +153,7 @@ where
       _connection_permit: connection_permit,
       incoming_pipe_sender: None,
       is_currently_congested: false,
+      early_ingress: std::collections::VecDeque::new(),
       cork_info,
     };
 
@@ -286,6 +290,7 @@ where
     // ── OPERATIONAL LOOP ──────────────────────────────────────────────────────
     if self.current_phase == ConnectionPhaseX::Operational {
       let mut message_processor = ZmqMessageProcessor::new();
+      ingress_buffer.extend(self.early_ingress.drain(..));
 
       let mut read_half = self
         .read_half
@@ -928,7 +933,10 @@ where
           self.set_fatal_error(e).await;
           return;
         }
-        AppAction::DeliverMessage(_) => {}
+        AppAction::DeliverMessage(batch) => {
+          // The peer's first data frames shared a read with its last handshake bytes.
+          self.early_ingress.push_back(batch);
+        }
       }
     }
   }
